@@ -44,7 +44,7 @@ func cmdVerify(args []string) {
 		fmt.Fprintln(os.Stderr, "spec:", err)
 		os.Exit(2)
 	}
-	if err := eng.LoadContracts(ContractFiles(*repo, *spec)); err != nil {
+	if err := eng.LoadContracts(ContractFilesArch(*repo, *arch, *spec)); err != nil {
 		fmt.Fprintln(os.Stderr, "contracts:", err)
 		os.Exit(2)
 	}
